@@ -47,6 +47,7 @@ var (
 	sites   []string
 	report  = map[string]int{}
 	coarse  []string
+	knobs   []string
 	modPath = "github.com/jech/storrent"
 )
 
@@ -536,6 +537,19 @@ func (w *walker) call(n *ast.CallExpr) bool {
 		}
 		return true
 	}
+	if isBuiltin(rw.info, n, "make") && len(n.Args) == 2 {
+		// queue capacities are tuning knobs: make(chan T, 512) becomes
+		// make(chan T, simrt.Knob("file.go:line", 512)), so that a run can be
+		// given short queues and the code's full-queue paths get exercised
+		if _, isChan := n.Args[0].(*ast.ChanType); isChan {
+			if lit, ok := n.Args[1].(*ast.BasicLit); ok && lit.Kind == token.INT && lit.Value != "0" && lit.Value != "1" {
+				pos := rw.fset.Position(n.Pos())
+				rw.repl(lit.Pos(), lit.End(), fmt.Sprintf("simrt.Knob(%q, %s)", fmt.Sprintf("%s:%d", filepath.Base(pos.Filename), pos.Line), lit.Value))
+				knobs = append(knobs, fmt.Sprintf("%s:%d cap %s", filepath.Base(pos.Filename), pos.Line, lit.Value))
+			}
+		}
+		return true
+	}
 	fn := w.rw.callee(n)
 	if fn == nil {
 		return true
@@ -749,7 +763,7 @@ func main() {
 		}
 	}
 	if *reportOut != "" {
-		b, _ := json.MarshalIndent(map[string]any{"files_rewritten": files, "sites": len(sites), "kinds": report, "coarse": coarse}, "", " ")
+		b, _ := json.MarshalIndent(map[string]any{"files_rewritten": files, "sites": len(sites), "kinds": report, "coarse": coarse, "knobs": knobs}, "", " ")
 		os.WriteFile(*reportOut, b, 0o644)
 	}
 }
